@@ -90,6 +90,9 @@ def cmd_check(prop: str, tier: str) -> int:
         f"[acsa] property={prop} tier={tier} modules={len(repo.modules)} "
         f"functions={sum(1 for _ in repo.all_functions())} obligations={len(result.obligations)}"
     )
+    eq = getattr(repo, "equiv_stats", {}) or {}
+    if eq.get("changed"):
+        print(f"  equivalence pass: {len(eq['changed'])} function(s) differ from the reference tree, {len(eq.get('proved_equivalent', []))} proved equivalent and analysed as their reference version")
     by_rule = {}
     for o in result.obligations:
         by_rule.setdefault(o.rule, []).append(o)
